@@ -93,7 +93,7 @@ options and from non-first anchors are unconstrained by the specification) — e
 walks in `Spec.lean` (`Refined` lists the operations covered). -/
 theorem queries_refine (ops : List Op) (ha : Admissible .none ops) :
     AnswersAgree ops (run .none ops).2 (Spec.run none ops).2 :=
-  (refines_run ops .none none trivial trivial ha).1
+  (refines_run ops .none none trivial trivial trivial ha).1
 
 /-- non-vacuity -/
 def histQ : List Op := [
@@ -124,7 +124,7 @@ example : Admissible .none histP := admissibleB_sound histP .none (by decide +ke
 
 theorem retained_queries_unchanged (ops : List Op) (ha : Admissible .none ops) :
     AnswersAgree ops (run .none ops).2 (Spec.run none ops).2 ∧ MRef (run .none ops).1 (Spec.run none ops).1 :=
-  refines_run ops .none none trivial trivial ha
+  refines_run ops .none none trivial trivial trivial ha
 
 example : (run .none histP).2 = (Spec.run none histP).2 := by decide +kernel
 
